@@ -45,29 +45,29 @@ def obligations(tier, seed):
     U = ["src/lang.c", "src/hamm.c"]
     M = ["c08_env.c"]
     defs = {k: None for k in KNOWN}
-    common = dict(harness="h_c08.c", units=U, models=M, stubs=STUBS, unwind=520, solver="cadical",
+    common = dict(harness="h_c08.c", units=U, models=M, stubs=STUBS, unwind=560, solver="cadical",
                   flags=["--max-field-sensitivity-array-size", "9"], mem_gb=4)
     seqs = [
         # pop-on: loading into non-displayed memory, nothing visible before EOC
         sk("popon_basic", "S_RCL;S_PACC(3);S_CH;S_TXA;S_EOC"),
         sk("popon_indent", "S_RCL;S_PACI(14);S_TXA;S_EOC"),
-        sk("popon_midrow", "S_RCL;S_PAC(8,0);S_LIT(0x41,0x42);S_MRX;S_TXA;S_EOC"),
+        sk("popon_midrow", "S_RCL;S_PAC(8,0x0F);S_LIT(0x41,0x42);S_MRX;S_TXA;S_EOC"),
         sk("popon_two_captions", "S_RCL;S_PAC(15,2);S_TXA;S_EOC;S_ENM;S_PAC(2,0x10);S_TXA;S_EOC"),
         sk("popon_edit", "S_RCL;S_PAC(5,0x14);S_LIT(0x41,0x42);S_TXA;S_BS;S_CH;S_EOC"),
         sk("popon_der", "S_RCL;S_PAC(5,0x14);S_TXA;S_PAC(5,0x12);S_DER;S_EOC"),
-        sk("popon_tab_special", "S_RCL;S_PAC(9,0x10);S_TO(2);S_TXA;S_SPX;S_EOC"),
+        sk("popon_tab_special", "S_RCL;S_PAC(9,0x10);S_TO(2);S_LIT(0x41,0x42);S_SPX;S_TXA;S_EOC"),
         sk("popon_col32", "S_RCL;S_PAC(13,0x1E);S_LIT(0x41,0x42);S_LIT(0x43,0x44);S_TXA;S_CH;S_EOC"),
         sk("popon_edm_dup", "S_RCL;S_RCL;S_PAC(10,4);S_PAC(10,4);S_TXA;S_EOC;S_EOC;S_EDM"),
         # roll-up
         sk("rollup_basic", "S_RU2;S_TXA;S_CH;S_CR;S_TXA"),
         sk("rollup_pac", "S_RU3;S_PAC(12,6);S_TXA;S_CR;S_TXA"),
         sk("rollup_top_clamp", "S_RU4;S_PAC(2,0);S_TXA;S_CR;S_TXA;S_CR"),
-        sk("rollup_midrow_edm", "S_RU2;S_TXA;S_MRX;S_EDM;S_TXS"),
+        sk("rollup_midrow_edm", "S_RU2;S_LIT(0x41,0x42);S_MRX;S_TXA;S_EDM;S_TXS"),
         sk("rollup_dup_badpar", "S_RU2;S_RU2;S_TXA;S_CR;S_CR;S_TXA;S_MISCBAD(0x2D);S_TXS"),
         sk("popon_datax", "S_RCL;S_PAC(7,0);S_LIT(0x41,0x42);S_DATAX;S_TXA;S_EOC"),
         # paint-on
         sk("painton_basic", "S_RDC;S_PACC(7);S_LIT(0x41,0x20);S_TXA;S_MR(5)"),
-        sk("painton_midrow", "S_RDC;S_PAC(7,0);S_TXA;S_MRX;S_TXS"),
+        sk("painton_midrow", "S_RDC;S_PAC(7,0);S_LIT(0x41,0x42);S_MRX;S_TXS"),
         sk("painton_rows", "S_RDC;S_PAC(3,0);S_LIT(0x41,0x20);S_TXA;S_PAC(6,0x12);S_TXS"),
         sk("painton_der", "S_RDC;S_PAC(3,0x12);S_TXA;S_PAC(3,0);S_DER"),
         # mode switches
@@ -85,9 +85,11 @@ def obligations(tier, seed):
     seqs_t = [
         sk("t_rollup_datax", "S_RU3;S_LIT(0x41,0x42);S_DATAX;S_TXA;S_TXS"),
         sk("t_popon_pacx_r1", "S_RCL;S_PACX(2);S_TXA;S_CH;S_EOC"),
-        sk("t_popon_pacx_r15", "S_RCL;S_PACX(9);S_TXA;S_CH;S_EOC"),
+        sk("t_popon_pacc_r15", "S_RCL;S_PACC(9);S_TXA;S_CH;S_EOC"),
+        sk("t_popon_paci_r15", "S_RCL;S_PACI(9);S_TXA;S_EOC"),
         sk("t_painton_pacx_r11", "S_RDC;S_PACX(0);S_TXA;S_TXS"),
-        sk("t_rollup_pacc", "S_RU3;S_PACC(12);S_TXA;S_CR;S_TXA"),
+        sk("t_rollup_pac_italic", "S_RU3;S_PAC(12,0x0F);S_TXA;S_CR;S_TXA"),
+        sk("t_rollup_pac_indent", "S_RU2;S_PAC(6,0x1D);S_TXA;S_CR;S_TXA"),
         sk("t_rollup4_long", "S_RU4;S_TXA;S_CR;S_TXA;S_CR;S_TXA;S_CR;S_TXA;S_CR;S_TXA"),
         sk("t_popon_three", "S_RCL;S_PAC(8,0);S_TXA;S_PAC(10,0x14);S_TXA;S_PAC(12,3);S_TXA;S_EOC;S_EDM"),
         sk("t_text_scroll", "S_TR;S_TXA;S_CR;S_CR;S_CR;S_CR;S_CR;S_CR;S_CR;S_CR;S_CR;S_CR;S_CR;S_CR;S_CR;S_CR;S_TXA;S_CR;S_TXA", cmp_text=1),
@@ -108,7 +110,8 @@ def obligations(tier, seed):
                       bounds="skeleton fixes the command class of every step; symbolic: second byte of text pairs (8 bits), PAC attribute/indent/underline bits, "
                              "mid-row / special character code, where the step kind says so",
                       outside="sequences not matching a skeleton of the grid; other channel of the same field interleaved",
-                      assumes=ASSUMES, reach=["end", "compared"], timeout=(900 if name.startswith("t_") else 400), vin_size=64, **common))
+                      assumes=ASSUMES, reach=["end", "compared"], timeout=(900 if name.startswith("t_") else 400), vin_size=64,
+                      **dict(common, mem_gb=(8 if name.startswith("t_") else common["mem_gb"]))))
     # ---- vbi_fetch_cc_page contract (composition step: the SEQ obligations read the page fetch copies) ----
     fg_t = [dict(PGNO=p, HID=h, CC_BUILD_MASK="0x%x" % (1 << ((p - 1) & 7))) for p in (0, 1, 2, 4, 5, 8, 9) for h in (0, 1)]
     fg_q = [dict(PGNO=p, HID=h, CC_BUILD_MASK="0x%x" % (1 << ((p - 1) & 7))) for (p, h) in ((1, 0), (1, 1), (6, 1), (9, 0), (0, 1))]
@@ -201,7 +204,7 @@ def obligations(tier, seed):
             ("KNOWN_RU_MOVE_ERASES", "S_RU2;S_TXA;S_TXS;S_PAC(8,0)", {}),
             ("KNOWN_RU_DEPTH_CHANGE_ERASES", "S_RU3;S_TXA;S_TXS;S_RU2", {}),
             ("KNOWN_DIRECT_SHARES_BUFFERS", "S_RU2;S_TXA;S_TXS;S_RCL;S_PAC(2,0);S_TXA;S_EOC", {}),
-            ("KNOWN_EOC_ERASES_HIDDEN", "S_RCL;S_PAC(2,0);S_TXA;S_EOC;S_EOC;S_EOC", {}),
+            ("KNOWN_EOC_ERASES_HIDDEN", "S_RCL;S_PAC(2,0);S_TXA;S_EOC;S_RCL;S_EOC;S_RCL;S_EOC", {}),
             ("KNOWN_EOC_MOVES_CURSOR", "S_RCL;S_PAC(2,0);S_EOC;S_TXA;S_EOC", {}),
             ("KNOWN_COL32_PARKED", "S_RCL;S_PAC(13,0x1E);S_TXA;S_TXA;S_BS;S_EOC", {}),
             ("KNOWN_PEN_NOT_RESET_AT_ROW_START", "S_RU2;S_MR(8);S_TXA;S_CR;S_TXA;S_TXS", {}),
@@ -239,4 +242,13 @@ def obligations(tier, seed):
             obs.append(Ob("mut_" + mname, func="h_cc_seq", defines=dd, tier="mutant", patch={"src/caption.c": subs},
                           desc="MUTANT %s of src/caption.c under skeleton %s: expected REFUTED" % (mname, base),
                           encodes=["vbi_decode_caption"], bounds="see seq_*", assumes=ASSUMES, reach=["end"], timeout=400, vin_size=64, **common))
+        obs.append(Ob("mut_fetch_wrong_page", func="h_cc_fetch", defines=dict(defs, PGNO=1, HID=1, CC_BUILD_MASK="0x1"), tier="mutant",
+                      patch={"src/caption.c": [(r"spg = ch->pg \+ \(ch->hidden \^ 1\);", "spg = ch->pg + ch->hidden;")]},
+                      desc="MUTANT: vbi_fetch_cc_page hands out the hidden page: expected REFUTED", encodes=["vbi_fetch_cc_page"], bounds="", reach=["end"],
+                      timeout=200, vin_size=17000, **common))
+        obs.append(Ob("mut_inv_putchar", harness="h_c08_inv.c", func="h_cc_inv", tier="mutant",
+                      defines=dict(defs, CC_BUILD_MASK="0x11", IMODE="MODE_POP_ON", IROLL=3, IROW1=12, IROW=14, IHID=0, IB1="0x%02x" % odd(0x41)),
+                      patch={"src/caption.c": [(r"ch->line\[COLUMNS - 2\] = c;", "ch->line[COLUMNS + 1] = c;")]},
+                      desc="MUTANT: put_char stores behind the row at the last column (inside text[], CBMC's own bounds check is blind): expected REFUTED by the canary",
+                      encodes=["put_char"], bounds="", reach=["end"], timeout=300, vin_size=8300, **{k: v for k, v in common.items() if k != "harness"}))
     return obs
